@@ -470,6 +470,24 @@ def u_independent_peer(ctx, u):
                     note = '; '.join(cl.log)
         except (OSError, ValueError) as e:
             note = 'peer: %s' % e
+        # the independent peer itself reached a verdict (not a wall-clock limit): what the library's server sent does not
+        # parse / unprotect / verify under the standard's key schedule, so the peer stopped before its own Finished
+        plog = list(getattr(cl, 'log', None) or [])
+        gave_up = (fin_ok is False and pname == 'tls13') or (pname != 'tls13' and fin_ok is None and note is not None and not note.startswith('peer:'))
+        if gave_up and not any('timed out' in x for x in plog + [note or '']):
+            try:
+                c_end.shutdown(socket.SHUT_RDWR)
+            except OSError:
+                pass
+            th.join(30)
+            ctx.check(False, 'independent-peer:server-flight-not-acceptable-under-the-standard:' + pname, proto=pname, mutual=mutual, rep=rep,
+                      note=note, peer_log=plog)
+            for sk in (c_end, s_end):
+                try:
+                    sk.close()
+                except OSError:
+                    pass
+            continue
         th.join(90)
         det = dict(proto=pname, mutual=mutual, rep=rep, note=note, peer_log=getattr(cl, 'log', None))
         if th.is_alive() or (note and 'timed out' in note):
